@@ -1013,6 +1013,10 @@ class Connection(object):
                 session.on_error(exc)
 
     def error_all_requests(self, exc):
+        # continuous paging sessions outlive their request: a connection that is closed
+        # (every reactor's close() ends here) must fail them too, or their consumers wait forever
+        self.error_all_cp_sessions(exc)
+
         with self.lock:
             requests = self._requests
             self._requests = {}
